@@ -159,6 +159,33 @@ def main(ck, tier, w):
                                  {'threads': th, 'values': len(lists[k]), 'observed': got, 'tags': []})
     ck.distinct(('mean-bits', len(lists)))
 
+    # ---- the very first parallel evaluation of a process (anything set up lazily on first use is set up while other workers already
+    # evaluate): many short runs over a chain whose first block holds dozens of outputs of every template, full pool; each run
+    # against the reference
+    rf = random.Random('%d-c13-first' % seed)
+    kf = b'\x02' + rf.randbytes(32)
+    first_outs = [{'val': 10 + i, 'spk': [btc.p2sh(rf.randbytes(20)), btc.p2pk(kf), b'\x6a' + btc.push(b'n%d' % i), btc.p2pkh(rf.randbytes(20)),
+                                          b'\x52' + btc.push(kf) * 3 + b'\x53\xae'][i % 5]} for i in range(40)]
+    fcb = [datadir.mk_block(b'\0' * 32, [btc.coinbase(0, None, outs=first_outs[:2])] + [
+        {'ver': 1, 'ins': [{'txid': rf.randbytes(32), 'idx': 0, 'sig': b'', 'seq': 0}], 'outs': first_outs[2 + 2 * k:4 + 2 * k], 'lock': k} for k in range(19)], t=1300000000, nonce=0)]
+    for fc in ((fcoin, 'bitcoin') if quick else (fcoin, 'bitcoin', 'litecoin', 'namecoin')):
+        fdir = datadir.simple_dir(w.sub('dd'), fcb, fc).write(plain=True)
+        fexp, _ = ref.csv_expected([(0, fcb[0])], fc)
+
+        def frun(i):
+            cl = w.sub('cl')
+            shutil.copytree(fdir, cl)
+            r = run.run_parser(cl, 'csvdump', dump=w.mk('out'), coin=fc, threads=[16, 64, 8][i % 3], verbose=0)
+            shutil.rmtree(cl, ignore_errors=True)
+            return r
+        rs = chains.pmap(frun, range(60 if quick else 400), 8)
+        ck.evals(len(rs))
+        ck.distinct(('first-use', fc))
+        wrong = [r for r in rs if r.rc != 0 or r.files.get('tx_out-0-0.csv') != fexp['tx_out']]
+        if wrong:
+            ck.violation('%s: %d of %d short runs (one block, 40 outputs of every template, full pool) differ from the reference' % (fc, len(wrong), len(rs)),
+                         {'coin': fc, 'observed': wrong[0].brief(), 'tags': []})
+
     # ---- T: evaluation orders really observed, validated against Par.tla ---------------------------
     NTX, NOUT = 12, 5
     txs = [{'ver': 1, 'ins': [{'txid': b'\0' * 32 if i == 1 else bytes([i]) * 32, 'idx': 0xffffffff if i == 1 else 0, 'sig': b'\x01\x01', 'seq': 0xffffffff}],
